@@ -52,6 +52,8 @@ def _to_int_list(arr):
     bad = None
     out = []
     for k in flat:
+        if isinstance(k, np.ndarray) and k.size == 1:
+            k = k.item()        # an object array may hold a 0-d array around the code (container is unspecified)
         if type(k) is int:
             out.append(k)
         elif isinstance(k, (bool, np.bool_)):
